@@ -828,7 +828,7 @@ loop:
 				// HEADERS frame and streams that are reserved using PUSH_PROMISE.
 				if fr.Type() == FrameHeaders {
 					openStreams++
-					sc.lastID = fr.Stream()
+					atomic.StoreUint32(&sc.lastID, fr.Stream())
 				}
 
 				sc.createStream(sc.c, fr.Type(), strm)
@@ -1027,7 +1027,13 @@ func (sc *serverConn) writeGoAway(strm uint32, code ErrorCode, message string) {
 
 	fr := AcquireFrameHeader()
 
-	ga.SetStream(strm)
+	// last-stream-id is the highest stream we may have acted on, whichever
+	// stream, if any, the error is about: the peer replays everything above it
+	// (RFC 7540 6.8). It is written by the stream loop and read here from the
+	// read loop and the idle timer as well, hence the atomics.
+	last := atomic.LoadUint32(&sc.lastID)
+
+	ga.SetStream(last)
 	ga.SetCode(code)
 	ga.SetData([]byte(message))
 
@@ -1036,7 +1042,7 @@ func (sc *serverConn) writeGoAway(strm uint32, code ErrorCode, message string) {
 	sc.write(fr)
 
 	if strm != 0 {
-		atomic.StoreUint32(&sc.closeRef, sc.lastID)
+		atomic.StoreUint32(&sc.closeRef, last)
 	}
 
 	atomic.StoreInt32((*int32)(&sc.state), int32(connStateClosed))
